@@ -60,20 +60,17 @@ def sessionSm (loc : Bool) : List Ev :=
    .recv (.saslSuccess true), .recv (.header true true), .recv (.features { bind := true, sm := true }),
    .recv (.iq (.bindResult .ok)), .recv (.smEnabled true loc)]
 
-/-- **Defect (open, `C10:next-attempt-targets-stale-resume-location`): a resume location outlives its stream.**  Full statement
-(false): "a reconnect goes to the `location` only to resume the stream whose `<enabled/>` named it".  Witness: a resumable session
-whose `<enabled/>` names a location; the server ends the stream (stream error + `</stream:stream>`: nothing to resume, and indeed
-the next attempt goes to the configured host); a NEW resumable session on the configured host whose `<enabled/>` names NO
-location; the connection is lost.  The reconnect goes to the location of the first, dead stream — `C2sStreamManager::onEnabled`
-only overwrites `m_resumeHost/m_resumePort` when a location is given and never clears them.  Suggested fix:
-`fixes/C10-stale-resume-location.diff` (forget the address when `<enabled/>` names none). -/
-theorem C10_defect_stale_resume_location :
-    ∃ (cfg : Cfg) (script : List Ev),
-      script = sessionSm true ++ [.recv (.streamError false), .closeTail] ++ sessionSm false ++ [.socketDisconnected] ∧
-      (run (init cfg) (sessionSm true ++ [.recv (.streamError false), .closeTail] ++ [.connectToServer])).1.target = .configured ∧
-      (run (init cfg) script).1.conn = .disconnected ∧ (run (init cfg) script).1.canResume = true ∧
-      (step (run (init cfg) script).1 .connectToServer).1.target = .location :=
-  ⟨{ plainOk := true }, _, rfl, by decide, by decide, by decide, by decide⟩
+/-- **A resume location does not outlive its stream.**  The former witness of `C10:next-attempt-targets-stale-resume-location`
+(fixed by dcf656f; before, `onEnabled` never cleared `m_resumeHost/m_resumePort`): a resumable session whose `<enabled/>` names a
+location; the server ends the stream; a NEW resumable session on the configured host whose `<enabled/>` names NO location; the
+connection is lost — the reconnect goes to the configured host.  And in general, in every state: after an accepted `<enabled/>`
+the stored location is exactly the one that element carried. -/
+theorem resume_location_belongs_to_the_enabled_stream (s : St) (resume loc : Bool) :
+    (onSmEnabled s resume loc).1.resumeLoc = (resume && loc) ∧
+    (let script := sessionSm true ++ [.recv (.streamError false), .closeTail] ++ sessionSm false ++ [.socketDisconnected]
+     (run (init { plainOk := true }) script).1.canResume = true ∧
+     (step (run (init { plainOk := true }) script).1 .connectToServer).1.target = .configured) :=
+  ⟨rfl, by decide⟩
 
 /-- In every state: a client that holds no resumable stream connects to the configured host; the `location` is used exactly
 when the stream manager can still resume (abrupt loss of a resumable session) and a location was announced. -/
